@@ -11,7 +11,7 @@ import numpy as np
 CHARS = list('abcdefghij ')
 
 
-def build_stub_net(path_cpu, n_chars, height=32, seed=0, gain=0.6):
+def build_stub_net(path_cpu, n_chars, height=32, seed=0, gain=0.6, pad_class=-1):
     import torch
     from torch import nn
 
@@ -23,14 +23,23 @@ def build_stub_net(path_cpu, n_chars, height=32, seed=0, gain=0.6):
             with torch.no_grad():
                 self.conv.weight.copy_(torch.randn(self.conv.weight.shape, generator=g) * gain)
                 b = torch.zeros(n_chars + 1)
-                b[-1] = 6.0           # zero input (padding) -> strong blank
+                if pad_class != -2:
+                    b[pad_class] = 6.0    # zero input (padding) -> strong blank (pad_class=-1) or, for C04, a strong character
                 self.conv.bias.copy_(b)
             self.pool = nn.AvgPool1d(4)
+            self.alternate = (pad_class == -2)   # C04: padding answers with two characters in turn (frame parity)
 
         def forward(self, x):
             y = self.conv(x)          # N, C, 1, W
             y = y.squeeze(2)
-            return self.pool(y)       # N, C, W/4
+            y = self.pool(y)          # N, C, W/4
+            if self.alternate:
+                par = (torch.arange(y.shape[2]) % 2).to(y.dtype)
+                bump = torch.zeros_like(y)
+                bump[:, 0, :] = 6.0 * (1.0 - par)
+                bump[:, 1, :] = 6.0 * par
+                y = y + bump
+            return y
 
     net = Net().eval()
     scripted = torch.jit.script(net)
@@ -38,10 +47,10 @@ def build_stub_net(path_cpu, n_chars, height=32, seed=0, gain=0.6):
     return net
 
 
-def write_ocr_json(dirname, n_chars=None, height=32, seed=0, gain=0.6):
+def write_ocr_json(dirname, n_chars=None, height=32, seed=0, gain=0.6, pad_class=-1):
     chars = CHARS if n_chars is None else CHARS[:n_chars]
     ck = os.path.join(dirname, 'stub.pt')
-    build_stub_net(ck + '.cpu', len(chars), height=height, seed=seed, gain=gain)
+    build_stub_net(ck + '.cpu', len(chars), height=height, seed=seed, gain=gain, pad_class=pad_class)
     cfg = dict(line_px_height=height, line_vertical_scale=1.0, checkpoint='stub.pt', characters=chars, net_name='stub')
     p = os.path.join(dirname, 'ocr.json')
     with open(p, 'w', encoding='utf8') as f:
@@ -49,10 +58,10 @@ def write_ocr_json(dirname, n_chars=None, height=32, seed=0, gain=0.6):
     return p, chars
 
 
-def make_engine(dirname, batch_size=8, height=32, seed=0, gain=0.6):
+def make_engine(dirname, batch_size=8, height=32, seed=0, gain=0.6, pad_class=-1):
     import torch
     from pero_ocr.ocr_engine.pytorch_ocr_engine import PytorchEngineLineOCR
-    p, chars = write_ocr_json(dirname, height=height, seed=seed, gain=gain)
+    p, chars = write_ocr_json(dirname, height=height, seed=seed, gain=gain, pad_class=pad_class)
     return PytorchEngineLineOCR(p, torch.device('cpu'), batch_size=batch_size), chars
 
 
